@@ -141,10 +141,11 @@ theorem translate_expand (m : Srcmap) (hm : WFMap m) (hv : MonoMap m) (pos pos' 
     (hle : pos ≤ pos') (x x' : Nat)
     (hx : getSourcePosFor m pos = .ok x) (hx' : getSourcePosFor m pos' = .ok x') :
     x + (pos' - pos) ≤ x' := by
-  obtain ⟨i, k, v, h1, h2, h3, h4⟩ := C05.lineOf_spec m hm pos
-  obtain ⟨i', k', v', h1', h2', h3', h4'⟩ := C05.lineOf_spec m hm pos'
-  rw [C05.getSourcePosFor_of_line m pos i k v h1 h2 h3] at hx
-  rw [C05.getSourcePosFor_of_line m pos' i' k' v' h1' h2' h3'] at hx'
+  obtain ⟨i, k, v, h1, h2, h3, h4, e⟩ := C05.lineOf_spec_tr m hm pos (C05.clampFree_of_mono m hv pos)
+  obtain ⟨i', k', v', h1', h2', h3', h4', e'⟩ :=
+    C05.lineOf_spec_tr m hm pos' (C05.clampFree_of_mono m hv pos')
+  rw [e] at hx
+  rw [e'] at hx'
   simp only [Except.ok.injEq] at hx hx'
   subst hx hx'
   rcases Nat.lt_trichotomy i i' with hlt | heq | hgt
@@ -161,15 +162,18 @@ theorem translate_expand (m : Srcmap) (hm : WFMap m) (hv : MonoMap m) (pos pos' 
     omega
 
 /-- no key of the table lies in `(pos, pos']`: the two positions are on one line and the
-    translation is a shift -/
-theorem translate_same_line (m : Srcmap) (hm : WFMap m) (pos pos' : Nat) (hle : pos ≤ pos')
+    translation is a shift (`MonoMap`: no virtual-space entry, so the clamp of `get_source_pos_for` is
+    inactive — inside the virtual spaces of a split tab the translation is constant, not a shift) -/
+theorem translate_same_line (m : Srcmap) (hm : WFMap m) (hv : MonoMap m) (pos pos' : Nat)
+    (hle : pos ≤ pos')
     (hno : ∀ (i k v : Nat), m[i]? = some (k, v) → ¬ (pos < k ∧ k ≤ pos')) (x x' : Nat)
     (hx : getSourcePosFor m pos = .ok x) (hx' : getSourcePosFor m pos' = .ok x') :
     x' = x + (pos' - pos) := by
-  obtain ⟨i, k, v, h1, h2, h3, h4⟩ := C05.lineOf_spec m hm pos
-  obtain ⟨i', k', v', h1', h2', h3', h4'⟩ := C05.lineOf_spec m hm pos'
-  rw [C05.getSourcePosFor_of_line m pos i k v h1 h2 h3] at hx
-  rw [C05.getSourcePosFor_of_line m pos' i' k' v' h1' h2' h3'] at hx'
+  obtain ⟨i, k, v, h1, h2, h3, h4, e⟩ := C05.lineOf_spec_tr m hm pos (C05.clampFree_of_mono m hv pos)
+  obtain ⟨i', k', v', h1', h2', h3', h4', e'⟩ :=
+    C05.lineOf_spec_tr m hm pos' (C05.clampFree_of_mono m hv pos')
+  rw [e] at hx
+  rw [e'] at hx'
   simp only [Except.ok.injEq] at hx hx'
   subst hx hx'
   rcases Nat.lt_trichotomy i i' with hlt | heq | hgt
